@@ -52,6 +52,11 @@ PROPS = {
                 what="every live feed event after every operation, against the stored mutation"),
     "C09": dict(modules=["Rosmar.Properties.C09", "Rosmar.Properties.Sched"], slices=[FEEDS, FEEDSD, MULTI], proj=P(rb=ROW, ev="*", results=False),
                 what="dump feeds (backfill snapshots) from several start CAS values, against the stored rows"),
+    "C10": dict(modules=["Rosmar.Properties.C10"], slices=[KVD, CLOCKD],
+                proj=P(rb=ROW, results=True, ops={"restart", "lastcas"}),
+                what="on-disk histories with close/reopen in-process (restart) compared with the model; and fault enumeration: a child process "
+                     "is SIGKILLed at instrumentation points (txn.begin, cas.afterwrite, txn.precommit, txn.committed, post.before, ...) and a "
+                     "fresh process reopens and reads everything back"),
     "C11": dict(modules=["Rosmar.Properties.C11"], slices=[MULTI, MULTID], proj=V.proj_all,
                 what="every key of every collection re-read after every operation on any collection"),
     "C03": dict(modules=["Rosmar.Properties.C03"], slices=[KV, KVD], proj=V.proj_all,
@@ -103,7 +108,12 @@ def extra_C03(tier, seed, log):
     return cov, viols
 
 
-EXTRA = {"C14": extra_C14, "C03": extra_C03, "C13": extra_sched("C13"), "C08": extra_sched("C08"), "C09": extra_sched("C09")}
+def extra_C10(tier, seed, log):
+    import crash
+    return crash.run(tier, seed, log)
+
+
+EXTRA = {"C10": extra_C10, "C14": extra_C14, "C03": extra_C03, "C13": extra_sched("C13"), "C08": extra_sched("C08"), "C09": extra_sched("C09")}
 
 
 def load_lines(path):
